@@ -316,3 +316,45 @@ def rule_hashall(ctx):
                         '(and in map()) always collide')
     r.check_floor()
     return r
+
+
+def rule_eq_allpaths(ctx):
+    f = ctx.facts()
+    r = RuleResult('EQ-ALLPATHS', 'a hand-written `==` compares every data field on every path that can answer true: no data-dependent '
+                                  'shortcut skips a field that Hash still feeds (a == b must imply equal hashes)')
+    r.floor = 5
+    for adt in types_with(f, EQ):
+        eq = impl_method(f, adt, EQ, 'eq')
+        if eq.d.get('derived'):
+            continue
+        members = [m for ms in cone(f, eq, adt).values() for m in ms]
+        dfl = data_fields(f, adt) or []
+        # blocks of eq itself in which the result is pinned to false
+        false_blocks = set()
+        for pt, s in eq.points():
+            if s['k'] == 'assign' and not s['p']['pr'] and s['p']['l'] == 0 and s['r']['k'] == 'use' and \
+                    s['r']['o']['k'] == 'const' and s['r']['o'].get('bool') is False:
+                false_blocks.add(pt[0])
+        for fl in dfl:
+            # blocks of eq in which field fl of self/other is read (directly, or handed to a method of the type that reads it)
+            touch = set()
+            for pt, role, pl, node in eq.places():
+                if any(isinstance(x, dict) and x.get('o') == adt and x.get('n') == fl for x in pl['pr']):
+                    touch.add(pt[0])
+            for pt, t in eq.calls():
+                c = t.get('callee')
+                cb = f.body((c.get('resolved') or c['path'])) if c else None
+                if cb is not None and cb.d.get('impl_adt') == adt and fl in fields_touched(f, cb, adt):
+                    touch.add(pt[0])
+            if not touch:
+                continue  # EQCOVER reports a field that is never compared
+            reach = eq.reachable(0, blocked=touch | false_blocks)
+            leak = [b_ for b_ in eq.return_blocks() if b_ in reach]
+            ok = not leak
+            r.site('%s: `==` cannot answer true without comparing %s' % (adt, fl), eq.span(), 'ok' if ok else 'violation')
+            if not ok:
+                r.violation('%s:%s' % (adt, fl), eq.span(), eq.path,
+                            '`==` has a path that can answer true without comparing data field `%s` (a data-dependent shortcut): values '
+                            'differing there are equal, yet Hash and observers still distinguish them' % fl)
+    r.check_floor()
+    return r
